@@ -108,6 +108,22 @@ def run_cli(args, stdin=b"", env=None, tty=False, timeout=30, stdin_tty=False, c
     return p.returncode, out.replace(b"\r\n", b"\n"), err
 
 
+def run_cli_limited(args, mem_bytes, timeout=120):
+    """run_cli under an address-space limit (so that a request for unbounded memory fails fast instead
+    of exhausting the machine). Returns (returncode, stdout, stderr); -999 = still running at timeout."""
+    import resource
+    def limit():
+        resource.setrlimit(resource.RLIMIT_AS, (mem_bytes, mem_bytes))
+        resource.setrlimit(resource.RLIMIT_CORE, (0, 0))
+    env = base_env({"RUST_BACKTRACE": "0"})
+    try:
+        p = subprocess.run([BIN] + list(args), stdin=subprocess.DEVNULL, stdout=subprocess.PIPE, stderr=subprocess.PIPE,
+                           env=env, timeout=timeout, preexec_fn=limit)
+    except subprocess.TimeoutExpired as e:
+        return -999, e.stdout or b"", e.stderr or b""
+    return p.returncode, p.stdout, p.stderr
+
+
 def run_cli2(args, env=None, out_tty=False, err_tty=True, timeout=60):
     """Like run_cli, with stdout and stderr independently a pty or a pipe (no stdin)."""
     env = base_env(env)
@@ -991,6 +1007,16 @@ def c19(res, tier, seed, lib):
         rc, out, err = run_cli(["lighten", "0.1"] + mixed)
         good = run_cli(["lighten", "0.1"] + texts[:k])[1] if k else b""
         res.check(rc == 1 and out == good and ("'%s'" % bad).encode() in err, "prefix-then-error-naming-text", "cli:execute", repr(mixed), "rc=%s out=%r err=%r" % (rc, out[:100], err[-120:]))
+    # ---- huge counts: the commands that allocate per requested colour, under a 1.5 GB address-space limit ----
+    for argv in [["distinct", "18446744073709551615"], ["distinct", "9223372036854775807", "red"], ["distinct", "400000000000"],
+                 ["random", "-n", "18446744073709551615"], ["gradient", "-n", "18446744073709551615", "red", "blue"],
+                 ["distinct", "18446744073709551616"], ["random", "-n", "18446744073709551616"], ["gradient", "-n", "18446744073709551616", "red", "blue"]]:
+        rc, out, err = run_cli_limited(argv, 1500 * 1024 * 1024, timeout=90 if argv[0] == "distinct" else 5)
+        res.case(" ".join(argv))
+        if rc == -999 and argv[0] != "distinct":
+            continue  # streaming commands: still printing complete lines when stopped, no verdict on termination here
+        res.check(rc in (0, 1, 2), "huge-count-exit-0-1-2", "cli:" + argv[0], " ".join(argv),
+                  "rc=%s stderr=%r" % ("still running after 90 s" if rc == -999 else rc, strip_sgr(err)[:160]))
     # ---- B. oracle-only families: every subcommand with defective arguments ----
     subs = ["color", "list", "random", "distinct", "sort-by", "pick", "format", "paint", "gradient", "mix", "colorblind", "set",
             "saturate", "desaturate", "lighten", "darken", "rotate", "complement", "gray", "to-gray", "textcolor", "colorcheck",
